@@ -303,6 +303,42 @@ def run(ctx):
         g = [b for b, t in fn.calls() if A.cname(t) == BT_R + "get"]
         okr = bool(g) and any(y.k == "param" and y.a[0] == 2 for y in A.walk(og.of_operand(fn.term(g[0])["args"][1]))) if g else False
         ctx.ob("R-C08.6", fn, "reads-through-own-view", okr, "previous value read via self.get(keyspace, key)" if okr else "previous value is not read through the transaction's own view")
+        # the EFFECT: a new value is inserted unless it equals the previous one; None removes an existing key
+        ins = [b for b, t in fn.calls() if A.cname(t) == BT + "::insert"]
+        rem = [b for b, t in fn.calls() if A.cname(t) == BT + "::remove"]
+        cmpb = [b for b, t in fn.calls() if (t.get("callee") or A.cname(t)).endswith(("PartialEq::ne", "PartialEq::eq")) or A.cname(t).endswith(("::ne", "::eq"))]
+        isb = [b for b, t in fn.calls() if A.cname(t).endswith("Option::<T>::is_some") or A.cname(t).endswith("Option::<T>::is_none")]
+        oke = False
+        detaile = "%s lacks the insert / remove of the computed value" % m
+        if ins and rem:
+            oke = True
+            detaile = "Some(v) != prev -> insert(key, v); None and prev present -> remove(key)"
+            for c in cmpb:
+                sw = A.switch_after_call(fn, c)
+                if sw is None:
+                    continue
+                zero, true_t = A.bool_edges(fn, sw)
+                is_ne = (fn.term(c).get("callee") or A.cname(fn.term(c))).endswith("ne")
+                differ, same = (true_t, zero) if is_ne else (zero, true_t)
+                if not all(any(i in A.reach(fn, [e]) for i in ins) for e in differ) or any(i in A.reach(fn, list(same)) for i in ins):
+                    oke = False
+                    detaile = "the value computed by the closure is written only when it EQUALS the previous value (or not on every differing path): an update is acknowledged and dropped"
+            for c in isb:
+                sw = A.switch_after_call(fn, c)
+                if sw is None:
+                    continue
+                zero, true_t = A.bool_edges(fn, sw)
+                neg = A.cname(fn.term(c)).endswith("is_none")
+                present, absent = (zero, true_t) if neg else (true_t, zero)
+                if not all(any(r_ in A.reach(fn, [e]) for r_ in rem) for e in present) or any(r_ in A.reach(fn, list(absent)) for r_ in rem):
+                    oke = False
+                    detaile = "a closure answer of None removes the key only when it was ABSENT (or not whenever it was present): the removal is acknowledged and dropped"
+            # operands: insert(keyspace, key, value-from-f), remove(keyspace, key)
+            ti = og.of_operand(fn.term(ins[0])["args"][3]) if len(fn.term(ins[0])["args"]) > 3 else None
+            if ti is None or not any(x.k == "call" and ("call_once" in x.a[0] or x.a[0] == "<indirect>") for x in A.walk(ti)):
+                oke = False
+                detaile = "what is inserted is not the closure's output"
+        ctx.ob("R-C08.6", fn, "writes-what-the-closure-returned", oke, detaile)
     tk = ctx.fn(BT + "::take", "R-C08.6")
     if tk:
         ok = False
@@ -331,9 +367,76 @@ def run(ctx):
     from . import C06
     C06.version_change_rules(ctx, "R-C08.7")
 
+    # ---- R-C08.10 write-side forwarding table
+    write_forwarding(ctx, "R-C08.10")
+
     # ---- borrowed obligations (mechanisms owned by other properties that this property's verdict also rests on)
     # commit applies all at once: no exit between the first applied item and the publish
     ctx.borrow("C03", ["R-C03.10"], "R-C08.8")
     # write-ahead order of the batch commit every transaction commit goes through
     ctx.borrow("C02", ["R-C02.1"], "R-C08.9", only_instances=["batch::WriteBatch::commit", "publish", "apply"])
 
+
+
+WRITE_OPS = ("insert", "remove", "remove_weak", "fetch_update", "update_fetch", "take")
+WRITE_LAYERS = ("tx::optimistic::keyspace::OptimisticTxKeyspace::", "tx::single_writer::keyspace::SingleWriterTxKeyspace::",
+                "tx::optimistic::write_tx::WriteTransaction::", "tx::single_writer::write_tx::WriteTransaction::<'tx>::")
+
+
+def write_forwarding(ctx, rule):
+    """the write side of the forwarding table (R-C01.2 is the read side): every write method of the transaction wrappers and
+    every single-operation write helper of the tx keyspaces hands its key / value / closure to the like-named method of the
+    layer below on every non-error path; the helpers then commit the transaction they opened and look at the result."""
+    F = ctx.F
+    n = 0
+    for fid, fn in sorted(F.fns.items()):
+        if fn.kind == "closure" or not fid.startswith(WRITE_LAYERS):
+            continue
+        op = fid.rsplit("::", 1)[-1]
+        if op not in WRITE_OPS:
+            continue
+        n += 1
+        og = ctx.og(fn)
+        want = (op,) if op != "take" else ("take", "fetch_update")
+        fw = [(b, t) for b, t in fn.calls() if A.cname(t).rsplit("::", 1)[-1] in want and A.cname(t) != fid and
+              ("Transaction" in A.cname(t) or "TxKeyspace" in A.cname(t))]
+        errs = list(A.error_starts(fn))
+        ok = bool(fw)
+        detail = "%s never calls the like-named method of the layer below" % fid
+        if fw:
+            b0 = fw[0][0]
+            r = A.reach(fn, [0], avoid=[b for b, _ in fw] + errs)
+            skip = [x for x in fn.return_blocks() if x in r]
+            # the wrapper's own data parameters (everything after self [and the keyspace]) reach the callee
+            params = [i for i in range(2, fn.argc + 1) if "Keyspace" not in fn.local_ty(i)]
+            seen = set()
+            for a in fw[0][1]["args"]:
+                for x in A.walk(og.of_operand(a)):
+                    if x.k == "param":
+                        seen.add(x.a[0])
+                    if x.k == "closure":
+                        for nm, cap in (x.a[1] or ()):
+                            for y in A.walk(cap):
+                                if y.k == "param":
+                                    seen.add(y.a[0])
+            lost = [i for i in params if i not in seen]
+            ok = not skip and not lost
+            detail = "forwards %s to %s on every non-error path" % ("/".join(fn.local_name(i) if hasattr(fn, "local_name") else "P%d" % i for i in params), A.cname(fw[0][1]).rsplit("::", 2)[-2] + "::" + want[0]) if ok else \
+                ("%s can return without calling %s of the layer below: the write is acknowledged and nothing was written" % (fid, op) if skip
+                 else "%s does not hand its parameter(s) %s to %s: a different key / value is written" % (fid, lost, A.cname(fw[0][1])))
+        ctx.ob(rule, fn, "write-%s-forwarded" % op, ok, detail, fn.loc(fw[0][0]) if fw else "")
+        if "TxKeyspace::" in fid and fw and op != "take":
+            cm = [(b, t) for b, t in fn.calls() if A.cname(t).endswith("WriteTransaction::commit") or A.cname(t).endswith("::commit")]
+            okc = False
+            detailc = "the single-operation helper never commits the transaction it opened"
+            if cm:
+                after = [b for b, _ in cm if any(A.dominates(fn, fb, b) or b in A.reach_after(fn, fb) for fb, _ in fw)]
+                r2 = A.reach(fn, [s_ for fb, _ in fw for s_ in fn.succs(fb)], avoid=[b for b, _ in cm] + errs)
+                skipc = [x for x in fn.return_blocks() if x in r2]
+                rf = A.result_flow(fn, cm[0][0])
+                okc = bool(after) and not skipc and not rf.swallowed
+                detailc = "commits after the operation on every non-error path and looks at the result" if okc else \
+                    ("the helper can return after the operation without committing: the write is acknowledged and dropped with the transaction" if skipc or not after
+                     else "the commit's result is discarded: a failed (conflicting / poisoned) commit is acknowledged")
+            ctx.ob(rule, fn, "helper-%s-commits" % op, okc, detailc, fn.loc(cm[0][0]) if cm else "")
+    ctx.floor(rule, "write methods of the transaction wrappers and tx keyspace helpers", n, 24)
